@@ -512,12 +512,12 @@ fn three_commits<const FAIL: u8>(exclude_f3: bool, only_f3: bool) {
 #[kani::proof]
 #[kani::unwind(4)]
 fn c04_commit_first_committer_wins_3txn_ok() {
-	three_commits::<0>(cfg!(verif_kf_f3), false);
+	three_commits::<0>(crate::verif_cfg::KF_F3, false);
 }
 #[kani::proof]
 #[kani::unwind(4)]
 fn c04_commit_first_committer_wins_3txn_wal_failure() {
-	three_commits::<21>(cfg!(verif_kf_f3), false);
+	three_commits::<21>(crate::verif_cfg::KF_F3, false);
 }
 
 /// Witness of listed finding F3 through the whole pipeline (run only while F3 is listed)
